@@ -270,7 +270,8 @@ def bi_iter(e, st, args, kw, node):
 def bi_next(e, st, args, kw, node):
     from .symex2 import VGen
     it = args[0]
-    if isinstance(it, VGen):
+    if isinstance(it, (VGen, VList, VListRef)):
+        # a generator expression, or a groupby group (an iterator over a run): the first element is taken
         st, l = _materialize(e, st, it)
         pos = z3.IntVal(0)
         iid = None
@@ -503,6 +504,7 @@ def bi_sorted(e, st, args, kw, node):
                         patterns=[MP(pi(i), pi(j))]))
     st.assume(*e.wf(S, st))
     e.last_sorted = dict(S=S, X=X, pi=pi, pinv=pinv)
+    e.sorted_log.append(e.last_sorted)
     return st, st.new_list(S)
 
 
@@ -547,6 +549,7 @@ def bi_itertools_groupby(e, st, args, kw, node):
     vg = VGroups(S, G, b, keyterm, e)
     vg.grp = grp
     e.last_groupby = vg
+    e.groupby_log.append(vg)
     return st, vg
 
 
